@@ -3,6 +3,7 @@ package e1
 import (
 	"context"
 	"fmt"
+	"strings"
 	"sync"
 	"time"
 
@@ -140,7 +141,122 @@ func (m *c23Model) take(i int) string {
 	return fmt.Sprintf("reference expects item %d next", head)
 }
 
+// c23Overlap: two consecutive builds whose streams meet. The block builder finishes a stream on a
+// goroutine of its own (FinishStreaming runs after BuildBlock returned), so the next build's
+// StartStreaming can overlap it. Whatever the interleaving, inside the second stream no item may be
+// handed out twice and an item it handed out must not be re-addable until that stream finishes.
+func c23Overlap(r *simk.Run) *simk.Violation {
+	c := r.C
+	s := r.NewSim()
+	s.KeepLog = simk.WantLog()
+	nItems := 3 + c.Intn(4)
+	var sponsor codec.Address
+	sponsor[0] = 9
+	items := make([]*c23Item, nItems)
+	for i := range items {
+		items[i] = &c23Item{idx: i, id: ids.Empty.Prefix(uint64(i) + 300), sponsor: sponsor, size: 1, expiry: 10}
+	}
+	firstN := 1 + c.Intn(2)
+	restoreFirst := c.Bool(0.5)
+	secondSteps := 1 + c.Intn(3)
+	readdAfter := c.Intn(secondSteps + 1)
+	var viol *simk.Violation
+	var mu sync.Mutex
+	var hist []string
+	note := func(f string, a ...any) {
+		mu.Lock()
+		hist = append(hist, fmt.Sprintf(f, a...))
+		mu.Unlock()
+	}
+	finished := false
+	s.Run(r.T, func() {
+		ctx := context.Background()
+		mp := mempool.New[*c23Item](trace.Noop, 64, 64)
+		mp.Add(ctx, items)
+		// build A
+		mp.StartStreaming(ctx)
+		a := mp.Stream(ctx, firstN)
+		note("A:start,stream(%d)->%d items", firstN, len(a))
+		var wg sync.WaitGroup
+		wg.Add(2)
+		s.Go("c23.finishA", 0, func() {
+			defer wg.Done()
+			var back []*c23Item
+			if restoreFirst {
+				back = a
+			}
+			mp.FinishStreaming(ctx, back)
+			note("A:finish(restore=%v)", restoreFirst)
+		})
+		// build B, started without waiting for A's asynchronous finish
+		s.Go("c23.buildB", 0, func() {
+			defer wg.Done()
+			mp.StartStreaming(ctx)
+			note("B:start")
+			handed := map[int]bool{}
+			var order []int
+			for st := 0; st < secondSteps; st++ {
+				if st == readdAfter && len(order) > 0 {
+					x := items[order[c.Intn(len(order))]]
+					before := mp.Len(ctx)
+					mp.Add(ctx, []*c23Item{x})
+					note("B:client re-adds item %d during the stream", x.idx)
+					if after := mp.Len(ctx); after != before {
+						mu.Lock()
+						if viol == nil {
+							viol = &simk.Violation{Class: "C23/streamed-item-readded", Detail: fmt.Sprintf("item %d, handed out by the running stream, was accepted by Add during that stream (Len %d -> %d); history=%v", x.idx, before, after, hist)}
+						}
+						mu.Unlock()
+						return
+					}
+				}
+				for _, it := range mp.Stream(ctx, 1+c.Intn(2)) {
+					if handed[it.idx] {
+						mu.Lock()
+						if viol == nil {
+							viol = &simk.Violation{Class: "C23/handed-out-twice-in-one-stream", Detail: fmt.Sprintf("item %d was handed out twice within one stream; history=%v", it.idx, hist)}
+						}
+						mu.Unlock()
+						return
+					}
+					handed[it.idx] = true
+					order = append(order, it.idx)
+				}
+				note("B:stream -> %v", order)
+			}
+			mp.FinishStreaming(ctx, nil)
+			note("B:finish")
+		})
+		wg.Wait()
+		finished = true
+	})
+	r.Sample(map[string]any{"kind": "overlapping-builds", "history": hist})
+	r.Fingerprint("overlap|%d|%v|%d|%d|%x", firstN, restoreFirst, secondSteps, readdAfter, s.TraceHash())
+	r.Nontrivial()
+	if v := s.Violation(); v != nil {
+		return v
+	}
+	if viol != nil {
+		return viol
+	}
+	if !finished && s.Hung && strings.Contains(s.HangInfo, "mempool.streamLock") && strings.Contains(s.HangInfo, "mempool.FinishStreaming") {
+		// StartStreaming holds the mempool lock while it waits for the stream lock, FinishStreaming holds the
+		// stream lock while it waits for the mempool lock: in this interleaving the two builds deadlock on the
+		// unchanged tree. The listed property says nothing about termination of these calls, so this is an
+		// observation (DESIGN.md §10.2), not a violation.
+		s.Probe("observation_start_vs_finish_streaming_deadlock")
+		return nil
+	}
+	if s.Hung && !s.StepLimit {
+		return &simk.Violation{Class: "C23/hang", Detail: "overlapping builds never finished: " + s.HangInfo}
+	}
+	return nil
+}
+
 func c23(r *simk.Run) *simk.Violation {
+	if r.C.Intn(10) == 0 {
+		return c23Overlap(r)
+	}
 	c := r.C
 	s := r.NewSim()
 	s.KeepLog = simk.WantLog()
